@@ -9,13 +9,16 @@ class FeedServer(threading.Thread):
        ("send", bytes) ("sleep", seconds) ("close",) ("reset",) ("accept", timeout) ("mark", label)
     and records what it did with timestamps."""
 
-    def __init__(self, plan, accept_timeout=20.0):
+    def __init__(self, plan, accept_timeout=20.0, listen=True):
         super().__init__(daemon=True)
         self.plan = plan
         self.sock = socket.socket(socket.AF_INET, socket.SOCK_STREAM)
         self.sock.setsockopt(socket.SOL_SOCKET, socket.SO_REUSEADDR, 1)
         self.sock.bind(("127.0.0.1", 0))
-        self.sock.listen(4)
+        # listen=False: the port stays reserved (bound) but refuses connections - nobody else's
+        # server can be given the same port while a client is pointed at it
+        if listen:
+            self.sock.listen(4)
         self.port = self.sock.getsockname()[1]
         self.log = []
         self.conn = None
